@@ -25,11 +25,20 @@ def main():
     common.pin_environment()
     mod = importlib.import_module(a.prop.lower())
     ctx = common.Ctx(a.prop, tier, seed)
-    if a.replay:
-        obj = json.load(open(a.replay))
-        rule = mod.replay(ctx, obj)
-    else:
-        rule = mod.run(ctx)
+    try:
+        if a.replay:
+            obj = json.load(open(a.replay))
+            rule = mod.replay(ctx, obj)
+        else:
+            rule = mod.run(ctx)
+    except Exception:  # noqa: BLE001 - a crash of the harness means the property is no longer shown to hold on this tree
+        import traceback
+        tb = traceback.format_exc()
+        print(tb[-1500:])
+        ctx.violation('harness:unexpected-exception', 'the check itself raised while exercising the implementation (an output shape or '
+                      'exception the harness does not anticipate): ' + tb.strip().split('\n')[-1][:200],
+                      {'obligation': 'harness run', 'traceback': tb[-3000:]}, kind='obligation')
+        rule = getattr(mod, 'RULE', '')
     sys.exit(ctx.finish(rule))
 
 
